@@ -7,8 +7,10 @@ import Acra.Model.Net
 import Acra.Model.PES
 import Acra.Model.Ch11
 import Acra.Lemmas.SrcTie
+import Acra.Lemmas.SrcTieNorm
+set_option linter.unusedSimpArgs false
 namespace Acra.Props.C07
-open Acra Acra.Py Acra.Lemmas.SrcTie
+open Acra Acra.Py Acra.Lemmas.SrcTie Acra.Lemmas.SrcTieNorm
 
 /-! Source ties (C07): the definitions of `Acra.Gen.Src.*` are regenerated from the CURRENT Python source by
     `harness/translate.py` on every run; each theorem says that the regenerated definition equals the hand-written
@@ -32,6 +34,8 @@ theorem src_checksum_stanag (buff : Bytes) :
   unfold Gen.Src.PES.checksum_stanag Model.PES.checksum_stanag
   have h := stanag_fold [] buff 0
   simp only [List.nil_append, List.length_nil, Int.zero_add] at h
+  -- a `sum(… for i in range(len(buff)))` is the same fold as the accumulating `for` loop
+  try simp only [Py.sum, List.foldl_map]
   simp only [Py.len, range_eq, h]
   exact pymod_natCast_lit _ _
 
@@ -39,27 +43,31 @@ theorem src_checksum_stanag (buff : Bytes) :
 theorem src_ip_calc_checksum (pkt : Bytes) :
     Gen.Src.SimpleEthernet.ip_calc_checksum pkt = (Model.Net.ipCalcChecksum pkt).map Int.ofNat := by
   unfold Gen.Src.SimpleEthernet.ip_calc_checksum Model.Net.ipCalcChecksum
-  have hpad : (if pymod (Py.len pkt) 2 = 1 then pkt ++ ([0] : Bytes) else pkt)
-      = (if (pkt.length % 2 == 1) = true then pkt ++ [0] else pkt) := by
-    simp only [Py.len, pymod_natCast_lit]
-    split <;> split <;> simp_all <;> omega
-  simp only [hpad]
+  -- the padding test, in whatever form it is written (`% 2 == 1`, `& 1`, …): decided from the parity of the length
+  have hpad : ∀ (c : Prop) [Decidable c], (c ↔ pkt.length % 2 = 1) →
+      (if c then pkt ++ ([0] : Bytes) else pkt) = (if (pkt.length % 2 == 1) = true then pkt ++ [0] else pkt) := by
+    intro c _ h; exact ite_iff (h.trans (by simp)) _ _
+  rw [hpad _ (by simp only [Py.len, pymod_natCast_lit, band_natCast_lit, and_1]; omega)]
   generalize (if (pkt.length % 2 == 1) = true then pkt ++ [0] else pkt) = p
-  have hn : Int.toNat (floordiv (Py.len p) 2) = p.length / 2 := by
-    simp only [Py.len, floordiv_natCast_lit]; rfl
-  simp only [hn, structUnpackI_eq, Gen.Net.ipcs_fmt0]
+  -- the word count (`// 2`, `>> 1`, …)
+  simp only [Py.len, floordiv_natCast_lit, shr_natCast, toNat_lit, Int.toNat_natCast, shr_div, Nat.pow_one,
+    structUnpackI_eq, Gen.Net.ipcs_fmt0]
   cases structUnpack ⟨false, List.replicate (p.length / 2) Code.u16⟩ p with
   | error e => rfl
   | ok ws =>
+    -- the folding arithmetic: everything to `/` and `%` by literals, then linear arithmetic decides
     simp only [Except.map, bind, Except.bind, sum_natCast, shr_natCast, band_natCast_lit, toNat_lit]
-    simp only [← Int.natCast_add, shr_natCast, band_inv_natCast_lit, toNat_lit]
-    rfl
+    simp only [← Int.natCast_add, shr_natCast, band_natCast_lit, band_inv_natCast_lit, toNat_lit]
+    refine congrArg Except.ok (congrArg Int.ofNat ?_)
+    try simp only [and_ffff, shr_div, Nat.reducePow]
+    all_goals omega
 
 /-- `get_checksum_buf` (Chapter 10 header checksum) as written today = the model, for every byte string:
     the odd-length `Exception`, the `TypeError` of `reduce` on the empty buffer, and the sum -/
 theorem src_get_checksum_buf (buf : Bytes) :
     Gen.Src.Chapter11.get_checksum_buf buf = (Model.Ch11.getChecksumBuf buf).map Int.ofNat := by
   unfold Gen.Src.Chapter11.get_checksum_buf Model.Ch11.getChecksumBuf
+  unfold_src_helpers          -- a private helper the summation may have been moved into
   have hc : (pymod (Py.len buf) 2 ≠ 0) ↔ (buf.length % 2 ≠ 0) := by
     simp only [Py.len, pymod_natCast_lit]; omega
   have hn : Int.toNat (floordiv (Py.len buf) 2) = buf.length / 2 := by
@@ -80,6 +88,7 @@ theorem src_get_checksum_buf (buf : Bytes) :
 theorem src_get_checksum_byte_buf (buf : Bytes) :
     Gen.Src.Chapter11.get_checksum_byte_buf buf = (Model.Ch11.getChecksumByteBuf buf).map Int.ofNat := by
   unfold Gen.Src.Chapter11.get_checksum_byte_buf Model.Ch11.getChecksumByteBuf
+  unfold_src_helpers
   have hn : Int.toNat (Py.len buf) = buf.length := rfl
   simp only [hn, structUnpackI_eq, Gen.Ch11.cksum_byte_buf_fmt0]
   cases structUnpack ⟨false, List.replicate buf.length Code.u8⟩ buf with
